@@ -51,8 +51,11 @@ func evOneCreate(o *h.Out, rc *h.Rng, ans func(string)) {
 	emit := rc.Chance(75)
 	endow := uint64(rc.Intn(1000))
 	ev := uint64(0)
+	if emit && endow == 0 {
+		emit = false // an ETX of value zero is refused by the opcode itself (covered by the etx cases)
+	}
 	if emit {
-		ev = uint64(rc.Intn(int(endow) + 1))
+		ev = 1 + uint64(rc.Intn(int(endow)))
 	}
 	balance := endow + uint64(rc.Intn(500))
 	if rc.Chance(10) && endow > 0 {
